@@ -345,7 +345,7 @@ func init() {
 var c11Profile = gen.Profile{
 	Name: "C11", MinLen: 1, MaxLen: 40, PoolMin: 2, PoolMax: 8, MemSizes: []int{64, 256},
 	W:        gen.Weights{Alu: 6, Div: 1, Load: 2, Store: 2, Branch: 2, Jump: 2, Call: 1, Loop: 1, Walk: 1, Nop: 1},
-	TakenPct: 50, Hostile: true, OOBShadow: true, ZeroRaPct: 15,
+	TakenPct: 50, Hostile: true, OOBShadow: true, ErrShadow: true, ZeroRaPct: 15,
 }
 
 // format renders a program with drawn formatting: indentation, blank lines,
